@@ -43,10 +43,10 @@ def stage_bvref(chk, n):
 
 def stage_gen_bv(chk, bins, types, n_bits, family, variants=("dbg-native",)):
     path, res = vlib.generate_cases(chk.work, "GenBV_bits", "GenBV",
-                                    cfg_consts({"N": n_bits, "Mode": '"bits"', "FamilyLens": "{}"}) + GEN_TAIL)
+                                    cfg_consts({"N": n_bits, "Mode": '"bits"', "FamilyLens": "{}", "RLClasses": "{}", "RLMaxRuns": 0, "RLTails": "{}"}) + GEN_TAIL)
     chk.add_tlc(res, "GenBV bits<=%d" % n_bits, {"behaviours": len(res.replay_lines)})
     path2, res2 = vlib.generate_cases(chk.work, "GenBV_family", "GenBV",
-                                      cfg_consts({"N": 0, "Mode": '"family"', "FamilyLens": family}) + GEN_TAIL)
+                                      cfg_consts({"N": 0, "Mode": '"family"', "FamilyLens": family, "RLClasses": "{}", "RLMaxRuns": 0, "RLTails": "{}"}) + GEN_TAIL)
     chk.add_tlc(res2, "GenBV family", {"behaviours": len(res2.replay_lines)})
     for v in variants:
         for p, label in ((path, "bits"), (path2, "family")):
@@ -66,6 +66,10 @@ def stage_trace(chk, bins, scenario, trace_module, invariants=(), variant="dbg-n
         for key, val in out["stats"].items():
             if isinstance(val, int):
                 total[key] = total.get(key, 0) + val
+            elif isinstance(val, dict) and all(isinstance(x, int) for x in val.values()):
+                d = total.setdefault(key, {})
+                for k2, v2 in val.items():
+                    d[k2] = d.get(k2, 0) + v2
         if ok:
             chk.cov["traces_validated_against_impl"] += 1
             chk.cov["evaluations"] += out["stats"].get("queries", out["stats"].get("events", 0))
@@ -103,3 +107,46 @@ def check_C01(chk):
     return chk.finish(rule="cases = (bit vector content, query, argument); generated exhaustively by TLC for all contents "
                            "<= N bits and a boundary family, and recorded from regime-directed contents; distinct = distinct "
                            "(content, query, argument) triples with non-empty content")
+
+
+def sparse_widths(total):
+    return sorted(int(k[1:]) for k in total.get("widths", {}).keys()) if isinstance(total.get("widths"), dict) else []
+
+
+def check_C02(chk):
+    bins = vlib.build_harness(["dbg-native"])
+    stage_bvref(chk, 9)
+    stage_gen_bv(chk, bins, ["sparse"], 11 if chk.thorough else 10, FAMILY_THOROUGH if chk.thorough else FAMILY_QUICK)
+    total = stage_trace(chk, bins, "sparse", "TraceBV", invariants=("ObjWellFormed",), seeds=2 if chk.thorough else 1)
+    widths = sparse_widths(total)
+    chk.cov["low_widths_observed"] = widths
+    need = 18 if chk.thorough else 8
+    if not chk.violations and len(widths) < need:
+        raise ToolError("vacuous: only %d distinct low-part widths observed (%s), need %d" % (len(widths), widths, need))
+    return chk.finish(rule="cases = (universe size, set positions, query, argument) on the Elias-Fano vector built by 5 routes; "
+                           "TLC-generated for all contents <= N bits and the boundary family; recorded for a sweep of low-part widths, "
+                           "bucket-boundary positions, select_zero stress layouts, empty/full vectors; distinct = distinct (content, query, argument)")
+
+
+def stage_gen_rl(chk, bins, classes, maxruns, tails):
+    path, res = vlib.generate_cases(chk.work, "GenBV_rl", "GenBV",
+                                    cfg_consts({"N": 0, "Mode": '"rl"', "FamilyLens": "{}", "RLClasses": classes, "RLMaxRuns": maxruns, "RLTails": tails}) + GEN_TAIL,
+                                    timeout=1500)
+    chk.add_tlc(res, "GenBV run-length value classes %s, <= %d runs" % (classes, maxruns), {"behaviours": len(res.replay_lines)})
+    out = vlib.harness(bins["dbg-native"], ["replay", "--kind", "bv", "--types", "rl", "--cases", path])
+    chk.add_replay(out, "replay GenBV rl classes on dbg-native")
+
+
+def check_C03(chk):
+    bins = vlib.build_harness(["dbg-native"])
+    stage_bvref(chk, 9)
+    stage_gen_bv(chk, bins, ["rl"], 11 if chk.thorough else 10, FAMILY_THOROUGH if chk.thorough else FAMILY_QUICK)
+    if chk.thorough:
+        stage_gen_rl(chk, bins, "{1, 2, 7, 8, 9, 63, 64, 65, 511, 512}", 2, "{0, 1, 64}")
+        stage_gen_rl(chk, bins, "{1, 7, 8, 64, 512}", 3, "{0, 9}")
+    else:
+        stage_gen_rl(chk, bins, "{1, 2, 7, 8, 9, 64, 512}", 2, "{0, 1}")
+    stage_trace(chk, bins, "rl", "TraceBV", invariants=("ObjWellFormed",), seeds=2 if chk.thorough else 1)
+    return chk.finish(rule="cases = (length, maximal runs, query, argument) on the run-length vector built by 6 routes (per run, bit at a "
+                           "time, split runs that must merge, set_len before each run, conversions), plus the run iterator with its "
+                           "running offset/rank; distinct = distinct (content, query, argument)")
